@@ -238,7 +238,9 @@ class ExceptionTrace(object):
 
     def render(self, io, simple=False):  # type: (IO, bool) -> None
         if simple:
-            io.write_line("<error>{}</error>".format(str(self._exception)))
+            io.write_line(
+                self._format_message(str(self._exception), "<error>{}</error>")
+            )
             return
 
         if not PY36:
@@ -276,15 +278,21 @@ class ExceptionTrace(object):
             io, "<error>{}</error>".format(inspector.exception_name), True
         )
         io.write_line("")
-        exception_message = io.remove_format(inspector.exception_message).replace(
-            "\n", "\n  "
-        )
-        self._render_line(io, "<b>{}</b>".format(exception_message))
+        exception_message = inspector.exception_message.replace("\n", "\n  ")
+        self._render_line(io, self._format_message(exception_message, "<b>{}</b>"))
 
         current_frame = inspector.frames[-1]
         self._render_snippet(io, current_frame)
 
         self._render_solution(io, inspector)
+
+    def _format_message(self, message, fmt):  # type: (str, str) -> str
+        if "<" in message:
+            # The message is not markup: it is shown as it is, unstyled, because
+            # an escaped tag inside a styled text keeps its backslash
+            return message.replace("<", "\\<")
+
+        return fmt.format(message)
 
     def _render_snippet(self, io, frame):
         self._render_line(
